@@ -40,8 +40,8 @@ func Main(c *run.Ctx) {
 		"databases whose lines are valid / nested / malformed / non-object JSON or logfmt, up to 250 samples per series (several channel batches); " +
 		"monitors: direct evaluator, SQL-only vs forced in-process plan of the same pipeline, scripted upstream in random batchings; distinct key = monitor × query shape × limit class")
 	c.Assume("malformed / non-object JSON lines under a json stage are probes (only robustness is judged there)")
-	total := c.Pick(900, 45000)
-	per := c.Pick(450, 4500)
+	total := c.Pick(3000, 60000)
+	per := c.Pick(1000, 5000)
 	c07.RunChildren(c, "C09", total, per)
 	c.Floor("split pipelines compared with the direct evaluator", total/6, 0)
 	c.Floor("pipelines compared across engines (SQL vs in-process)", total/6, 0)
